@@ -222,3 +222,55 @@ def pair_faults(sc, dates, rng, count):
         p = PATHS[n % len(PATHS)]
         runs.append({"id": "p%d%s" % (n, p), "path": p, "faults": fs})
     return runs
+
+
+# -- directed cases --------------------------------------------------------------------------------------------------------------
+def _sc(hosts, links, routes, actors, nmutex=0, net="default"):
+    return {"net": net, "hosts": [{"speed": s, "disk": d} for s, d in hosts], "links": [{"bw": b, "lat": l} for b, l in links],
+            "routes": routes, "nmutex": nmutex, "actors": [{"host": h, "ops": [o.split() for o in ops]} for h, ops in actors]}
+
+
+def _f(kind, idx, t_off, t_on=-1.0):
+    return {"kind": kind, "idx": idx, "t_off": t_off, "t_on": t_on}
+
+
+def _runs(prefix, schedules, paths=PATHS):
+    return [{"id": "%s%d%s" % (prefix, i, p), "path": p, "faults": fs} for i, fs in enumerate(schedules) for p in paths]
+
+
+TWO = ([(1e9, 1), (1e9, 1)], [(1e6, 0.001)], [[0, 1, [0]]])
+
+# (name, scenario, explicit runs or None = full enumeration, flavours)
+DIRECTED = [
+    # the scenario of design-probes/fail.cpp: blocking put/get, exec, sleep, async put waited later, remote exec, remote disk
+    ("probe", _sc([(1e9, 1), (1e9, 1), (1e9, 0)], [(1e6, 0.001), (1e6, 0.001)], [[0, 1, [0]], [0, 2, [1]], [1, 2, [0, 1]]],
+                  [(0, ["put m 5e6", "aput m2 3e6", "sleep 1", "wait 1"]), (1, ["get m"]), (1, ["exec 8e9"]), (1, ["sleep 7"]),
+                   (2, ["aget m2", "rexec 1 4e9", "wait 0"])]), None, ("hooks", "asan")),
+    # wait_any over a comm, a remote exec and a remote read while each of their resources fails
+    ("waitany", _sc([(1e9, 1), (1e9, 1), (1e9, 1)], [(1e6, 0.001), (2e6, 0.0)], [[0, 1, [0]], [0, 2, [1]], [1, 2, [0, 1]]],
+                    [(0, ["aget a", "aexec 1 2e9", "aexec 2 1e9", "waitany 0 1 2", "waitany 0 1 2", "waitany 0 1 2", "join 1"]),
+                     (1, ["sleep 0.5", "put a 1e6", "sleep 1"]), (2, ["lock 0", "sleep 1", "unlock 0"]), (0, ["sleep 0.25", "lock 0", "exec 5e8", "unlock 0"])],
+                    nmutex=1), None, ("hooks", "asan")),
+    # I/O on the disk of another host which fails during the transfer (and an asynchronous one waited later)
+    ("remote-io", _sc(*TWO, actors=[(0, ["read 1 1e8", "sleep 1"]), (0, ["awrite 1 1e8", "sleep 3", "wait 0"])]),
+     _runs("io", [[_f("H", 1, 0.5)], [_f("H", 1, 0.5, 0.75)]]), ("hooks",)),
+    # a comm that completed before the host of one side failed, waited for afterwards by the other side
+    ("completed-comm", _sc(*TWO, actors=[(0, ["aput m 1e5", "sleep 3", "wait 0"]), (1, ["get m"]), (1, ["aget n", "sleep 3", "wait 0"]), (0, ["put n 1e5"])]),
+     _runs("cc", [[_f("H", 1, 2.0)], [_f("H", 0, 2.0)], [_f("H", 1, 2.0, 2.5)]]), ("hooks",)),
+    # the receiver (last to post, so that the kernel comm points to its s4u::Comm) dies with its host while the comm is running
+    ("dangling-iface", _sc(*TWO, actors=[(0, ["aput m 1e6", "sleep 4", "wait 0"]), (1, ["sleep 0.1", "aget m", "sleep 4", "wait 1"])]),
+     _runs("di", [[_f("H", 1, 0.5)]]), ("hooks", "asan")),
+    # link / host turned off by maestro between two run_until() while one or two comms use it
+    ("outside-run", _sc(*TWO, actors=[(0, ["put m 1e6"]), (1, ["get m"]), (0, ["aget n", "wait 0"]), (1, ["put n 1e6"])]),
+     _runs("or", [[_f("L", 0, 0.5)], [_f("L", 0, 1.0, 1.5)]], paths="M"), ("hooks",)),
+    # test() on activities that failed
+    ("test-failed", _sc(*TWO, actors=[(0, ["aput m 1e6", "sleep 2", "test 0", "wait 0"]), (1, ["aget m", "sleep 2", "test 0", "wait 0"]),
+                                      (0, ["aexec 1 3e9", "sleep 2", "test 0"]), (0, ["aread 1 1e9", "sleep 2", "test 0"])]),
+     _runs("tf", [[_f("L", 0, 0.5)], [_f("H", 1, 0.5)]], paths="AP"), ("hooks",)),
+    # detached send in flight when its source host fails (and comes back before the natural end of the transfer)
+    ("detached-inflight", _sc(*TWO, actors=[(0, ["dput m 1e6", "sleep 5"]), (1, ["get m"])]),
+     _runs("df", [[_f("H", 0, 0.5)], [_f("H", 0, 0.5, 0.6)]], paths="AP"), ("hooks",)),
+    # detached send not yet matched when its source host fails; a get comes later
+    ("detached-leftover", _sc(*TWO, actors=[(0, ["dput m 1e6", "sleep 5"]), (1, ["sleep 1", "get m"])]),
+     _runs("dl", [[_f("H", 0, 0.5)]], paths="AT"), ("hooks",)),
+]
